@@ -7,6 +7,7 @@ import (
 	"fmt"
 	"math"
 	"math/rand"
+	"runtime"
 	"strings"
 	"sync"
 	"sync/atomic"
@@ -33,11 +34,13 @@ const (
 	psIterNeverRun             // iterator created and never run; context cancelled at the timer
 	psIterCancelThenRun        // context cancelled at the timer, THEN the iterator is run: must yield nothing, unsubscribe once
 	psStayer                   // manual; subscribed before the senders start until after the last Send (the anchor)
+	psHolder                   // manual holder of k subscriptions: Add(k); never receives; withdraws all at once, Add(-k), at its timer
+	psNewcomer                 // manual; spins until Add(0) reads 0, then Add(1) and receive/Wait cycles with a short receive timeout
 	psNStyles
 )
 
 var psStyleName = [psNStyles]string{"manual_quota", "manual_timer", "iter_cancel", "iter_break", "iter_never_run",
-	"iter_cancel_then_run", "stayer"}
+	"iter_cancel_then_run", "stayer", "holder", "newcomer"}
 
 type psSubPlan struct {
 	style   int
@@ -45,6 +48,8 @@ type psSubPlan struct {
 	leaveAt time.Duration // offset from the start barrier of the timer-driven leave (timer styles); 0: none
 	quota   int
 	proc    time.Duration // "processing" after each receipt (a slow subscriber), still within the contract
+	k       int           // holder: number of subscriptions held (|delta| of its Add calls); others: 1
+	recvTO  time.Duration // newcomer: leaves when nothing arrived for this long after it subscribed
 }
 
 type psSenderPlan struct {
@@ -82,7 +87,8 @@ type psSub struct {
 	stopOnce       sync.Once
 }
 
-var psStateName = []string{"not-started", "Add(+1)", "receiving", "Wait", "Add(-1)", "returned", "Send", "waiting-for-cancel"}
+var psStateName = []string{"not-started", "Add(+delta)", "receiving", "Wait", "Add(-delta)", "returned", "Send", "waiting-for-cancel",
+	"spinning-on-Add(0)"}
 
 type psRun struct {
 	h        *hctx
@@ -148,9 +154,27 @@ func (r *psRun) manual(s *psSub) {
 	if s.plan.joinAt >= 0 {
 		r.until(s.plan.joinAt)
 	}
+	w := 1
+	if s.plan.style == psHolder && s.plan.k > 1 {
+		w = s.plan.k
+	}
+	if s.plan.style == psNewcomer {
+		// subscribe at the very moment the subscriber count reads 0 (every existing subscription withdrawn, possibly in the
+		// middle of a Send whose copies are still being drained)
+		s.state.Store(8)
+		for r.x.Add(0) != 0 {
+			select {
+			case <-s.stop:
+				s.state.Store(5)
+				return // never subscribed
+			default:
+			}
+			runtime.Gosched()
+		}
+	}
 	s.state.Store(1)
 	a := tick()
-	r.x.Add(1)
+	r.x.Add(w)
 	b := tick()
 	r.mu.Lock()
 	s.addInv, s.addRet = a, b
@@ -158,18 +182,25 @@ func (r *psRun) manual(s *psSub) {
 	close(s.joined)
 	<-r.begin
 	var timer <-chan time.Time
-	if s.plan.style == psManualTimer {
+	if s.plan.style == psManualTimer || s.plan.style == psHolder {
 		timer = r.after(s.plan.leaveAt)
 		if timer == nil {
 			timer = time.After(0)
 		}
 	}
+	if s.plan.style == psNewcomer {
+		timer = time.After(s.plan.recvTO)
+	}
+	var recvC chan int // nil for a holder: it never receives
 	n := 0
 loop:
 	for {
 		s.state.Store(2)
+		if s.plan.style != psHolder {
+			recvC = r.x.C()
+		}
 		select {
-		case v := <-r.x.C():
+		case v := <-recvC:
 			r.record(s, v, true)
 			s.state.Store(3)
 			r.x.Wait()
@@ -188,7 +219,7 @@ loop:
 	}
 	s.state.Store(4)
 	s.markUnInv()
-	r.x.Add(-1)
+	r.x.Add(-w)
 	s.unRet.Store(int64(tick()))
 	s.state.Store(5)
 }
@@ -691,7 +722,33 @@ func (r *psRun) eval(hung bool) {
 
 // ---- C06K2: random programs ---------------------------------------------------------------------------------------
 
+// psAllLeavePlan: every existing subscription (one or two multi-delta holders) is withdrawn at once in the middle of a Send,
+// while newcomers subscribe as soon as the count reads 0 and then receive eagerly. No anchor: the count must reach 0.
+func psAllLeavePlan(rng *rand.Rand) psPlan {
+	var p psPlan
+	us := func(n int) time.Duration { return time.Duration(rng.Intn(n+1)) * time.Microsecond }
+	ns := 1 + rng.Intn(2)
+	for i := 0; i < ns; i++ {
+		sp := psSenderPlan{startAt: us(60)}
+		for q := 0; q < 1+rng.Intn(2); q++ {
+			sp.gaps = append(sp.gaps, time.Duration(0))
+		}
+		p.senders = append(p.senders, sp)
+	}
+	leave := 80*time.Microsecond + us(300)
+	for i := 0; i < 1+rng.Intn(2); i++ {
+		p.subs = append(p.subs, psSubPlan{style: psHolder, joinAt: -1, k: 2 + rng.Intn(63), leaveAt: leave + us(3)})
+	}
+	for i := 0; i < 1+rng.Intn(2); i++ {
+		p.subs = append(p.subs, psSubPlan{style: psNewcomer, joinAt: us(50), recvTO: time.Millisecond + us(1500)})
+	}
+	return p
+}
+
 func psRandomPlan(rng *rand.Rand) psPlan {
+	if rng.Intn(6) == 0 {
+		return psAllLeavePlan(rng)
+	}
 	var p psPlan
 	us := func(n int) time.Duration { return time.Duration(rng.Intn(n+1)) * time.Microsecond }
 	ns := 1 + rng.Intn(3)
@@ -717,7 +774,11 @@ func psRandomPlan(rng *rand.Rand) psPlan {
 			sp.style = psStayer
 			sp.joinAt = -1
 		} else {
-			sp.style = rng.Intn(psNStyles - 1)
+			sp.style = rng.Intn(psStayer) // one of the six leaving styles ...
+			if rng.Intn(12) == 0 {
+				sp.style = psHolder // ... or a holder of several subscriptions that never receives
+				sp.k = 2 + rng.Intn(63)
+			}
 			if rng.Intn(5) < 2 {
 				sp.joinAt = -1
 			} else {
@@ -787,6 +848,15 @@ func psSweepCases(h *hctx) []timedCase {
 				{style: psStayer, joinAt: -1},
 				{style: psManualQuota, joinAt: -1, quota: 9, proc: us(400)},
 				{style: psManualQuota, joinAt: us(250) + jit(100), quota: 9}}}
+		}),
+		// EVERY existing subscription (a holder of k) is withdrawn in the middle of the Send, and a newcomer subscribes as soon
+		// as the count reads 0, i.e. while the holder is still draining its k copies through the caster, then receives eagerly
+		mk("all-leave-in-send+newcomer", func() psPlan {
+			ks := []int{1, 2, 3, 8, 64, 2 + rng.Intn(63)}
+			snd := []psSenderPlan{{startAt: 0, gaps: make([]time.Duration, 1+rng.Intn(2))}}
+			return psPlan{senders: snd, subs: []psSubPlan{
+				{style: psHolder, joinAt: -1, k: ks[rng.Intn(len(ks))], leaveAt: us(200) + jit(100)},
+				{style: psNewcomer, joinAt: us(1), recvTO: 2 * time.Millisecond}}}
 		}),
 		// the Send starts during the subscribe
 		mk("send-in-join", func() psPlan {
